@@ -78,13 +78,19 @@ def run_wl(name, name2, role, traced, k=0, fail_log_at=(), fail_flush=False, pro
     root_before = (list(root.handlers), root.level, root.disabled, logging.root.manager.disable)
     path = WL.__file__
     flt = lambda c: c.co_filename == path and c.co_name != "workload"
+    # every other configuration builds the tracing context BEFORE the program installs its own profiler and enters it afterwards
+    # (`ctx = monkeytype.trace(config)` at start-up, `with ctx:` per request): "the previously installed profiler" is the one in
+    # place when the block is ENTERED
+    import zlib
+    ahead = traced and profiler and zlib.crc32(repr((name, role, sorted(fail_log_at), fail_flush, exit_exc)).encode()) % 2 == 0
+    cm = trace_calls(lg, k, flt) if ahead else None
     sys.setprofile(_harness_profiler if profiler else None)
     prev = sys.getprofile()
     try:
         with contextlib.redirect_stdout(buf), contextlib.redirect_stderr(errbuf):
             try:
                 if traced:
-                    with trace_calls(lg, k, flt):
+                    with (cm if cm is not None else trace_calls(lg, k, flt)):
                         res = WL.workload(T.CATALOGUE[name], T.CATALOGUE[name2], role)
                         if exit_exc:
                             raise ProgramError("program's own exception")
